@@ -171,11 +171,34 @@ func VHBimapCloneRange() {
 		return
 	}
 	stop := vChoose("stop", n+2) // stop after this many callbacks (n+1: never)
+	// optionally the callback itself reads the map - lookups and a complete nested Range - during
+	// its nestAt-th invocation: read-only re-entrancy must not disturb the outer iteration
+	nestAt := vChoose("nestAt", n+1) // 0: never
 	var seenK, seenV []int
 	calls := 0
 	b.Range(func(k, v int) bool {
 		calls++
 		seenK, seenV = append(seenK, k), append(seenV, v)
+		if calls == nestAt {
+			inner := 0
+			var innerK []int
+			b.Range(func(k2, v2 int) bool {
+				inner++
+				ev, eok := m.forward(k2)
+				vAssert(eok && ev == v2, "nested Range visits only pairs of the map")
+				for _, x := range innerK {
+					vAssert(x != k2, "nested Range visits every pair at most once")
+				}
+				innerK = append(innerK, k2)
+				return true
+			})
+			vAssert(inner == n, "a Range nested inside a Range callback visits every pair")
+			gv, ok := b.GetForward(k)
+			vAssert(ok && gv == v, "lookups inside a Range callback see the pair being visited")
+			if n >= 2 {
+				vCover("bimap: nested range on >= 2 pairs")
+			}
+		}
 		return calls < stop
 	})
 	want := n
